@@ -6,7 +6,10 @@ open Model
 
 
 (* word-level as-is models (Int/DivWordModel.v at w = 64): do they compute the magnitude quotient /
-   remainder that the sign tables assume?  Only model fidelity, never the verdict. *)
+   remainder that the sign tables assume?  Only model fidelity, never the verdict.
+   The instance that runs is the fully transcribed one (Int/DivSrcInst.v): num-modular's reciprocal
+   division as in barrett.rs (Int/DivNumModular.v) and C01's model of mul::add_signed_mul; the
+   exact-arithmetic instance (Int/DivWordInst.v) must agree with it (both are proved = floor division). *)
 module Wordlevel = struct
   let b64 = Zar.shift_left Zar.one 64
   let b128 = Zar.shift_left Zar.one 128
@@ -31,12 +34,12 @@ module Wordlevel = struct
     let q = Zar.div a b and r = Zar.rem a b in
     let is_const = (ty = "uc" || ty = "ic") in
     match f with
-    | FDiv when not is_const -> m_repr_div a b = Ok q
-    | FDivEuclid when ty = "u" -> m_repr_div a b = Ok q
-    | FRem | FRemEuclid | FIsMultipleOf when not is_const -> m_repr_rem a b = Ok r
-    | FRem -> m_const_rem a b = Ok r
-    | FDiv | FDivRem when is_const -> m_const_div_rem a b = Ok (q, r)
-    | _ -> m_repr_div_rem a b = Ok (q, r)
+    | FDiv when not is_const -> s64_repr_div a b = Ok q && m_repr_div a b = Ok q
+    | FDivEuclid when ty = "u" -> s64_repr_div a b = Ok q && m_repr_div a b = Ok q
+    | FRem | FRemEuclid | FIsMultipleOf when not is_const -> s64_repr_rem a b = Ok r && m_repr_rem a b = Ok r
+    | FRem -> s64_const_rem a b = Ok r && m_const_rem a b = Ok r
+    | FDiv | FDivRem when is_const -> s64_const_div_rem a b = Ok (q, r) && m_const_div_rem a b = Ok (q, r)
+    | _ -> s64_repr_div_rem a b = Ok (q, r) && m_repr_div_rem a b = Ok (q, r)
   let extra ty f x y =
     let ok = (try mag_ok ty f x y with _ -> false) in
     let p = if ty = "uc" || ty = "ic" then cpath (Zar.abs x) (Zar.abs y) else path (Zar.abs x) (Zar.abs y) in
@@ -44,7 +47,9 @@ module Wordlevel = struct
   let kernel which lhs rhs m got =
     let show3 ((c, q), r) = "ok " ^ hx c ^ " " ^ hx q ^ " " ^ hx r in
     let want = show3 (m_kernel_spec lhs rhs (Zar.of_int m)) in
-    let asis = (match m_kernel_asis (Zar.of_int which) lhs rhs (Zar.of_int m) with Ok x -> show3 x | OutOfFuel -> "outoffuel" | _ -> "other") in
+    let asis = (match s64_kernel_asis (Zar.of_int which) lhs rhs (Zar.of_int m) with Ok x -> show3 x | OutOfFuel -> "outoffuel" | _ -> "other") in
+    let asis = (match m_kernel_asis (Zar.of_int which) lhs rhs (Zar.of_int m) with
+                | Ok x when show3 x = asis -> asis | _ -> "instances-disagree") in
     let n = nw rhs in
     let cls = Printf.sprintf "cls=k%d-n%s-q%s" which (if n <= 32 then "le32" else "gt32") (if m - n <= 32 then "le32" else if m >= 2 * n then "ge2n" else "gt32") in
     if Sys.getenv_opt "C02_DEBUG" <> None && split_ws asis <> got then prerr_endline ("asis: " ^ asis);
@@ -103,25 +108,33 @@ let judge op args got =
       let d = a 0 in
       expect (if Zar.sign d = 0 then "panic DivideBy0" else "ok " ^ hx d) got
   | "up" | "ipu" | "ipi" ->
+      (* primitive-typed operand: verdict = prim_form_spec (truncating division, and the undocumented
+         unwrap panic exactly when the result does not fit the fixed output type - class
+         prim_result_unrepresentable, finding F02 of C15); fidelity = prim_form_asis (the macro bodies) *)
       let pty = List.nth args 0 in
       let big = a 1 and p = a 2 in
-      let f = form_of form in
-      let x, y = if form = "pdiv" then (p, big) else (big, p) in
-      (match form_spec f x y with
-       | Ok l ->
-           (* the primitive-typed output: remainder of rem / div_rem, quotient of prim / big *)
-           let prim_out = (match form with "pdiv" -> List.hd l | "rem" -> List.hd l | "div_rem" -> List.nth l 1 | _ -> Zar.zero) in
-           if form <> "div" && not (fits pty prim_out) then
-             (* result not representable in the fixed output type: the only acceptable answer is a panic *)
-             (match got with "panic" :: _ -> pass ~extra:"cls=prim-unrepresentable" () | _ -> fail "panic <any>")
-           else expect ~extra:"cls=prim" (show (Ok l)) got
-       | r -> expect ~extra:"cls=prim-zero" (show r) got)
+      let k = (match form with "div" -> PDiv | "rem" -> PRem | "div_rem" -> PDivRem | "pdiv" -> PRDiv | s -> failwith ("form " ^ s)) in
+      let t = if ty = "up" then BU else BI in
+      let (lo, hi) = prim_range pty in
+      let bits = Zar.of_int (Zar.numbits (Zar.sub (Zar.sub hi lo) Zar.one)) in
+      let pt = { p_signed = Zar.sign lo < 0; p_bits = bits } in
+      let showp = function
+        | Panic Undocumented -> "panic Undocumented:called`Result::unwrap()`onan`Err`value:OutOfBounds"
+        | r -> show r in
+      let spec = prim_form_spec k pt big p in
+      let cls = (match spec with Panic Undocumented -> "cls=prim-unrepresentable" | Panic _ -> "cls=prim-zero" | _ -> "cls=prim") in
+      let fid = "asis=" ^ (if split_ws (showp (prim_form_asis k t pt big p)) = got then "same" else "diff") in
+      expect ~extra:(fid ^ " " ^ cls) (showp spec) got
   | "mc" ->
       let x = a 0 and d = a 1 in
       if Zar.sign d = 0 then
-        (* const fn: the panic comes from the primitive `%` / a debug assertion, any panic class accepted *)
+        (* const fn: the panic comes from the primitive `%` / a debug assertion (model: Panic Undocumented), any message *)
         (match got with "panic" :: _ -> pass ~nt:false ~extra:"cls=mc-zero" () | _ -> fail "panic <any>")
-      else expect ~extra:"cls=mc" (show (form_spec FIsMultipleOf x d)) got
+      else begin
+        let showb = function Ok b -> "ok " ^ (if b then "1" else "0") | _ -> "other" in
+        let fid = "asis=" ^ (if split_ws (showb (s64_is_multiple_of_const (Zar.abs x) d)) = got then "same" else "diff") in
+        expect ~extra:(fid ^ " cls=mc") (showb (is_multiple_of_spec x d)) got
+      end
   | "k" -> Wordlevel.kernel (int_of_string form) (a 0) (a 1) (Zar.to_int (a 2)) got
   | _ -> fail ("unknown-op-" ^ op)
 
